@@ -450,6 +450,16 @@ func loadAmqpMethods() []amqpMethod {
 	return out
 }
 
+// amqpTime: mostly present-day seconds; sometimes the edges of what a JSON timestamp can carry
+// (years 0 and 9999), just beyond them, and the ends of int64
+func amqpTime(r *Rand) int64 {
+	if r.Chance(80) {
+		return int64(r.Intn(2000000000))
+	}
+	return []int64{0, -1, 253402300799, 253402300800, -62167219200, -62167219201, 9223372036854775807, -9223372036854775808,
+		0x7fffffff00000000, -62135596800, 1 << 40}[r.Intn(11)]
+}
+
 func amqpShortStr(r *Rand) []byte {
 	switch r.Intn(6) {
 	case 0:
@@ -492,7 +502,7 @@ func amqpFVal(r *Rand, depth int) sx.Sx {
 		}
 		return sx.L(out...)
 	case k == 10:
-		return sx.L(sx.A("T"), sx.I(int64(r.Intn(2000000000))))
+		return sx.L(sx.A("T"), sx.I(amqpTime(r)))
 	case k == 11 && depth > 0:
 		return sx.L(sx.A("F"), amqpTable(r, depth-1))
 	case k == 12:
@@ -541,7 +551,7 @@ func amqpArgs(r *Rand, m amqpMethod) sx.Sx {
 		case "table":
 			args = append(args, sx.L(sx.A("t"), amqpTable(r, 2)))
 		case "timestamp":
-			args = append(args, sx.L(sx.A("ts"), sx.I(int64(r.Intn(2000000000)))))
+			args = append(args, sx.L(sx.A("ts"), sx.I(amqpTime(r))))
 		}
 	}
 	return sx.L(args...)
@@ -567,7 +577,7 @@ func amqpHeader(r *Rand, ch, bodySize int) sx.Sx {
 			case "o":
 				props = append(props, sx.L(sx.A("o"), sx.N(r.Intn(10))))
 			case "ts":
-				props = append(props, sx.L(sx.A("ts"), sx.I(int64(r.Intn(2000000000)))))
+				props = append(props, sx.L(sx.A("ts"), sx.I(amqpTime(r))))
 			}
 		}
 	}
